@@ -211,11 +211,16 @@ static const uint32 MINIMUM_FIELD_HEADERS_SIZE = (3*sizeof(uint32));  // name_le
 
 static UBool IsFieldPointerValid(const UMessage * msg, uint8 * ptr)
 {
-   void * ftptr = (GetNumValidBytesAt(msg, ptr) >= MINIMUM_FIELD_HEADERS_SIZE) ? GetFieldTypePointer(ptr) : NULL;
-   if ((ftptr)&&(GetNumValidBytesAt(msg, ((uint8*)ftptr)) >= (sizeof(uint32)+sizeof(uint32))))
+   /* The field's headers, its name, and all of the data bytes it declares must lie inside our valid bytes */
+   const uint32 numValidBytes = GetNumValidBytesAt(msg, ptr);
+   if (numValidBytes >= MINIMUM_FIELD_HEADERS_SIZE)
    {
-      uint8 * fData = GetFieldData(ftptr);
-      return (GetNumValidBytesAt(msg, fData) > 0);
+      const uint32 nameLength = GetFieldNameLength(ptr);
+      if (nameLength <= (numValidBytes-MINIMUM_FIELD_HEADERS_SIZE))
+      {
+         const uint32 numDataBytesPresent = numValidBytes-(MINIMUM_FIELD_HEADERS_SIZE+nameLength);
+         return ((numDataBytesPresent > 0)&&(GetFieldDataLength(GetFieldTypePointer(ptr)) <= numDataBytesPresent));
+      }
    }
    return UFalse;
 }
@@ -516,6 +521,7 @@ void UMIteratorInitialize(UMessageFieldNameIterator * iter, const UMessage * msg
    if (msg->_numValidBytes > MESSAGE_HEADER_SIZE)
    {
       iter->_currentField = msg->_buffer+MESSAGE_HEADER_SIZE;
+      if (IsFieldPointerValid(msg, iter->_currentField) == UFalse) iter->_currentField = NULL;
       if (UMIteratorCurrentFieldMatches(iter) == UFalse) UMIteratorAdvance(iter);
    }
    else iter->_currentField = NULL;
@@ -602,6 +608,7 @@ void UMIteratorAdvance(UMessageFieldNameIterator * iter)
             if (bytesLeft > 0) printf("UMIteratorAdvance:  Iteration found too-short field-header (" UINT32_FORMAT_SPEC " < " UINT32_FORMAT_SPEC "), aborting iteration!\n", bytesLeft, MINIMUM_FIELD_HEADERS_SIZE);
             iter->_currentField = NULL;
          }
+         else if (IsFieldPointerValid(iter->_message, iter->_currentField) == UFalse) iter->_currentField = NULL;
       }
       if (UMIteratorCurrentFieldMatches(iter)) return;
    }
@@ -910,6 +917,7 @@ const char * UMGetString(const UMessage * msg, const char * fieldName, uint32 id
    const uint8 * pointerToString = ((uint8 *)ftptr)+(4*sizeof(uint32));  /* skip past the field-type, field-size, number-of-items, and first-string-length fields */
    while(idx > 0)
    {
+      if (pointerToString >= afterEndOfField) return NULL;
       const uint32 stringSize = UMReadInt32(pointerToString-sizeof(uint32));
       if ((stringSize+sizeof(uint32)) > (uint32)(afterEndOfField-pointerToString)) return NULL;  /* paranoia */
       pointerToString += UMReadInt32(pointerToString-sizeof(uint32))+sizeof(uint32);  /* move past the string and the next string's string-length-field */
@@ -935,12 +943,14 @@ c_status_t UMFindData(const UMessage * msg, const char * fieldName, uint32 dataT
    const uint8 * pointerToBlob = ((uint8 *)ftptr)+(4*sizeof(uint32));  /* skip past the field-type, field-size, num-items, and first-blob-length fields */
    while(idx > 0)
    {
+      if (pointerToBlob >= afterEndOfField) return CB_ERROR;
       const uint32 blobSize = UMReadInt32(pointerToBlob-sizeof(uint32));  /* move past the blob and the next blob's string-length-field */
       if ((blobSize+sizeof(uint32)) > (uint32)(afterEndOfField-pointerToBlob)) return CB_ERROR;  // paranoia
       pointerToBlob += blobSize+sizeof(uint32);  /* move past the blob and the next blob's string-length-field */
       idx--;
    }
    if (pointerToBlob >= afterEndOfField) return CB_ERROR;
+   if (UMReadInt32(pointerToBlob-sizeof(uint32)) > (uint32)(afterEndOfField-pointerToBlob)) return CB_ERROR;
 
    *retDataBytes = pointerToBlob;
    *retNumBytes  = UMReadInt32(pointerToBlob-sizeof(uint32));
@@ -957,11 +967,13 @@ c_status_t UMFindMessage(const UMessage * msg, const char * fieldName, uint32 id
    const uint8 * pointerToMsg = ((uint8 *)ftptr)+(3*sizeof(uint32));  /* skip past the field-type, field-size, and first-msg-length fields (there is no field-size field) */
    while(idx > 0)
    {
+      if (pointerToMsg > afterEndOfField) return CB_ERROR;
       const uint32 msgSize = UMReadInt32(pointerToMsg-sizeof(uint32));
       if ((msgSize < MESSAGE_HEADER_SIZE)||((msgSize+sizeof(uint32)) > (uint32)(afterEndOfField-pointerToMsg))) return CB_ERROR;  /* paranoia */
       pointerToMsg += msgSize+sizeof(uint32);  /* move past the msg and the next msg's msg-length-field */
       idx--;
    }
+   if ((pointerToMsg > afterEndOfField)||(UMReadInt32(pointerToMsg-sizeof(uint32)) > (uint32)(afterEndOfField-pointerToMsg))) return CB_ERROR;
    return UMInitializeWithExistingData(retMessage, pointerToMsg, UMReadInt32(pointerToMsg-sizeof(uint32)));
 }
 
